@@ -191,7 +191,11 @@ pub fn siqs(
     }
     #[cfg(yamaquasi_verif)] crate::verif::ev(|| format!("\"op\":\"finalize\",\"st\":\"siqs\",\"gap\":{},\"len\":{},\"fb\":{}", s.gap.load(Ordering::Relaxed), rels.len(), fbase.len()));
     if !s.done.load(Ordering::Relaxed) && rels.len() <= fbase.len() {
-        panic!("Internal error: not enough smooth numbers with selected parameters (n={n})");
+        // This can happen with a user-selected factor base or interval that is too small.
+        if prefs.verbose(Verbosity::Info) {
+            eprintln!("Not enough smooth numbers with selected parameters (n={n})");
+        }
+        return Ok(vec![]);
     }
     let rels = rels.into_inner();
     if rels.len() == 0 {
